@@ -88,7 +88,7 @@ pub struct Known {
 }
 
 pub fn load_known() -> Vec<Known> {
-    let path = format!("{}/KNOWN_FINDINGS.json", crate::drv::VERIF);
+    let path = format!("{}/KNOWN_FINDINGS.json", crate::drv::verif_root());
     let Ok(text) = std::fs::read_to_string(&path) else { return vec![] };
     let v: Value = serde_json::from_str(&text).expect("KNOWN_FINDINGS.json parses");
     let mut out = vec![];
@@ -151,7 +151,7 @@ pub struct Report {
 impl Report {
     pub fn new(property: &str, tier: &str) -> Report {
         // stale replay files of earlier runs of this property and tier are removed
-        let dir = format!("{}/replays/{}", crate::drv::VERIF, property);
+        let dir = format!("{}/replays/{}", crate::drv::verif_root(), property);
         if let Ok(rd) = std::fs::read_dir(&dir) {
             for e in rd.flatten() {
                 if e.file_name().to_string_lossy().starts_with(&format!("{}-", tier)) {
@@ -215,7 +215,7 @@ impl Report {
             );
         }
         let g = self.new.lock().unwrap();
-        let dir = format!("{}/replays/{}", crate::drv::VERIF, self.property);
+        let dir = format!("{}/replays/{}", crate::drv::verif_root(), self.property);
         if !g.is_empty() {
             std::fs::create_dir_all(&dir).expect("create replay dir");
         }
@@ -285,7 +285,7 @@ impl Evidence {
             "wall_s": report.start.elapsed().as_secs_f64(),
             "violations": report.new_count(),
         });
-        let dir = format!("{}/evidence", crate::drv::VERIF);
+        let dir = format!("{}/evidence", crate::drv::verif_root());
         std::fs::create_dir_all(&dir).expect("evidence dir");
         let path = format!("{}/{}.json", dir, self.property);
         std::fs::write(&path, serde_json::to_string_pretty(&j).unwrap() + "\n")
